@@ -21,7 +21,7 @@ Open Scope Z_scope.
 Section DispatchProofs.
   Variables ty val bty blk : Type.
   Variable inst : ty -> val -> bool.
-  Variable binst : bty -> blk -> bool.
+  Variable binst : bty -> option blk -> bool.
 
   Local Notation bopT := (bop ty bty).
   Local Notation bst := (bstate ty bty).
@@ -472,12 +472,12 @@ Section DispatchProofs.
       destruct (blockreq_of ops) as [|b0|b0]; cbn [blockreq_state] in Hbr.
       + congruence.
       + destruct Hbr as [Hb1 Hb2]. assert (Hbb : b0 = bt) by congruence. subst b0. subst sg. rewrite Hb2 in *.
-        destruct b as [bl|]; cbn [matches_block].
-        * destruct (binst bt bl); [rewrite Ht, andb_true_r; reflexivity|rewrite andb_false_r; reflexivity].
-        * rewrite andb_false_r; reflexivity.
+        destruct b as [bl|]; cbn [matches_block orb].
+        * destruct (binst bt (Some bl)); [rewrite Ht, andb_true_r; reflexivity|rewrite andb_false_r; reflexivity].
+        * destruct (binst bt None); [rewrite Ht, andb_true_r; reflexivity|rewrite andb_false_r; reflexivity].
       + destruct Hbr as [Hb1 Hb2]. assert (Hbb : b0 = bt) by congruence. subst b0. subst sg. rewrite Hb2 in *.
-        destruct b as [bl|]; cbn [matches_block].
-        * destruct (binst bt bl); [rewrite Ht, andb_true_r; reflexivity|rewrite andb_false_r; reflexivity].
+        destruct b as [bl|]; cbn [matches_block orb].
+        * destruct (binst bt (Some bl)); [rewrite Ht, andb_true_r; reflexivity|rewrite andb_false_r; reflexivity].
         * rewrite Ht, andb_true_r; reflexivity.
     - inversion Hcr; subst d; clear Hcr. cbn [d_sig s_block d_hasfn] in *.
       specialize (I1 Hfn).
@@ -995,3 +995,64 @@ Proof.
     + right. reflexivity.
   - right. rewrite boolean_call_many. reflexivity.
 Qed.
+
+(* ================================================================================================
+   functionBuilder.Resolve in a context: the loader that holds a function's local types is gone when
+   Resolve is over - however it ends -, so what a function resolves to does not depend on the functions
+   resolved (or failed to resolve) before it in the same context.
+   ================================================================================================ *)
+Lemma do_with_loader_restores : forall (A : Type) (c : pctx) (l : lchain) (doer : pctx -> pctx * res A),
+  fst (do_with_loader c l doer) = c.
+Proof.
+  intros A [ch] l doer. unfold do_with_loader. cbn [c_loader].
+  destruct (doer (mkCtx l)) as [c' [a|p]]; reflexivity.
+Qed.
+
+(* also when doer panics: the panic goes on to the caller, the loader is the one from before *)
+Lemma do_with_loader_panic_restores : forall (A : Type) (c : pctx) (l : lchain) (doer : pctx -> pctx * res A) c' p,
+  do_with_loader c l doer = (c', Panic p) -> c' = c.
+Proof.
+  intros A c l doer c' p H. pose proof (do_with_loader_restores A c l doer) as R. rewrite H in R. exact R.
+Qed.
+
+Lemma resolve_fn_restores : forall (c : pctx) (f : fndecl), fst (resolve_fn c f) = c.
+Proof.
+  intros c [decls dss]. unfold resolve_fn.
+  destruct (run_all dss 0) as [e|ss]; [reflexivity|].
+  destruct decls as [|d decls]; [reflexivity|].
+  match goal with
+  | |- fst (let '(c', r) := do_with_loader ?a ?l ?dr in _) = _ =>
+      pose proof (do_with_loader_restores _ a l dr) as R;
+      destruct (do_with_loader a l dr) as [c' r]
+  end.
+  cbn [fst] in *. exact R.
+Qed.
+
+(* a Resolve that raises (builder panic or reported error) leaves the context as it was *)
+Lemma resolve_fn_failure_restores : forall (c c' : pctx) (f : fndecl) e,
+  resolve_fn c f = (c', inl e) -> c' = c.
+Proof. intros c c' f e H. pose proof (resolve_fn_restores c f) as R. rewrite H in R. exact R. Qed.
+
+Theorem history_independent : forall (h : list fndecl) (c : pctx),
+  run_history c h = (c, map (fun f => snd (resolve_fn c f)) h).
+Proof.
+  induction h as [|f h IH]; intros c; cbn [run_history map]; [reflexivity|].
+  pose proof (resolve_fn_restores c f) as R.
+  destruct (resolve_fn c f) as [c1 o] eqn:E. cbn [fst snd] in *. subst c1.
+  rewrite IH. reflexivity.
+Qed.
+
+(* the k-th function of a history resolves to what it resolves to alone in the initial context *)
+Theorem history_nth : forall (h : list fndecl) (c : pctx) (k : nat) (f : fndecl),
+  nth_error h k = Some f -> nth_error (snd (run_history c h)) k = Some (snd (resolve_fn c f)).
+Proof.
+  intros h c k f H. rewrite history_independent. cbn [snd].
+  exact (map_nth_error (fun f0 => snd (resolve_fn c f0)) k h H).
+Qed.
+
+(* in a context without local scopes a function's type references are looked up in its own local types *)
+Lemma chain_lookup_single : forall (own : scope) (n : str), chain_lookup [own] n = alias_lookup own n.
+Proof. intros own n. reflexivity. Qed.
+
+Lemma chain_lookup_nil : forall n, chain_lookup [] n = None.
+Proof. reflexivity. Qed.
